@@ -20,6 +20,7 @@ import (
 	"os"
 	"os/exec"
 	"path/filepath"
+	"reflect"
 	"runtime"
 	"sort"
 	"strconv"
@@ -151,9 +152,15 @@ type metaJSON struct {
 	Capabilities              []string `json:"capabilities"`
 }
 
-func contentBytes(c contentSpec) []byte {
-	m := metaJSON{Name: c.Name, Description: "stub plugin", Version: c.Version, URL: "https://example.test/p",
+// specMeta: the six metadata fields a content of kind "ok" is specified to print (checkTruth runs every
+// such content directly and compares the decoded output with this, field by field).
+func specMeta(c contentSpec) metaJSON {
+	return metaJSON{Name: c.Name, Description: "stub plugin", Version: c.Version, URL: "https://example.test/p",
 		SupportedContractVersions: []string{"1.0"}, Capabilities: []string{"SIGNATURE_GENERATOR.RAW"}}
+}
+
+func contentBytes(c contentSpec) []byte {
+	m := specMeta(c)
 	salt := ""
 	if c.Salt != 0 {
 		salt = fmt.Sprintf("# build %d\n", c.Salt)
@@ -235,7 +242,7 @@ func checkTruth(scratch string, c contentSpec) {
 		panic(fmt.Sprintf("c20: stub does not run: %v", err))
 	}
 	var m metaJSON
-	if err := json.Unmarshal(out, &m); err != nil || m.Name != c.Name || m.Version != c.Version || m.Name == "" || m.Version == "" ||
+	if err := json.Unmarshal(out, &m); err != nil || !reflect.DeepEqual(m, specMeta(c)) || m.Name == "" || m.Version == "" ||
 		m.Description == "" || m.URL == "" || len(m.Capabilities) == 0 || len(m.SupportedContractVersions) != 1 || m.SupportedContractVersions[0] != fwplugin.ContractVersion {
 		panic(fmt.Sprintf("c20: stub answer differs from its specification: %s", out))
 	}
@@ -257,6 +264,10 @@ var rawSpent time.Duration
 func rawTruth(c contentSpec) rawAns {
 	if fwplugin.ContractVersion != "1.0" {
 		panic("c20: plugin.ContractVersion is " + fwplugin.ContractVersion + ", the model says 1.0")
+	}
+	if c.Kind == "ok" {
+		// run and compared field by field by checkTruth in the process that executed the history
+		return rawAns{Kind: "RJson", M: specMeta(c)}
 	}
 	b := contentBytes(c)
 	if r, ok := rawCache[string(b)]; ok {
@@ -983,7 +994,7 @@ func runC20(a *Args) error {
 	}
 	// the concurrency family (one shared manager, a child process); ids follow the ordinary cases
 	runConcParent(a, w, len(specs), emit)
-	w.Set("raw_truth", fmt.Sprintf("%d distinct file contents run directly, %.1fs", len(rawCache), rawSpent.Seconds()))
+	w.Set("raw_truth", fmt.Sprintf("%d distinct malformed / failing file contents run directly by the driver (%.1fs); every well-formed content is run and compared field by field where its history is executed", len(rawCache), rawSpent.Seconds()))
 	return w.Close()
 }
 
